@@ -86,7 +86,8 @@ def gen_case(rng, size="m", named_p=0.3):
         elif r < 0.86:
             ops.append({"op": "evict", "accs": [a for a in range(k) if rng.random() < 0.5]})
         elif r < 0.92:
-            ops.append({"op": "get", "max": 1 << 30})
+            # mostly the whole pool; sometimes a small block body budget (proto size of a tx here is about 110 bytes)
+            ops.append({"op": "get", "max": (1 << 30) if rng.random() < 0.7 else rng.choice([0, 100, 150, 250, 400, 700])})
         elif r < 0.96:
             ops.append({"op": "unconf", "accs": [rng.randrange(k) for _ in range(rng.randrange(1, 3))]})
         else:
@@ -167,6 +168,10 @@ def coq_case(case, obs):
             e = "EEvict %s" % lN(op["accs"])
         elif kind == "unconf":
             e = "EUnconf %s" % lN(op["accs"])
+        elif kind == "get" and op.get("max", 1 << 30) < (1 << 30):
+            e = "EExist 0%nat"      # budgeted get: the model only checks that the pool is unchanged
+            o = dict(o)
+            o["res"] = "yes" if 0 in o["cache"] else "no"
         else:
             e = "EGet"
         steps.append("(%s,%s)" % (e, coq_obs(o)))
@@ -228,11 +233,13 @@ def step_predicates(case, obs):
             fails.append((name, op["op"], si, det))
         if op["op"] == "get":
             by = {l["acc"]: l for l in o["lists"]}
+            limited = op.get("max", 1 << 30) < (1 << 30)
             for g in o.get("get") or []:
                 a, got = g[0], g[1:]
                 l = by.get(a)
                 ns = [case["txs"][i]["nonce"] for i in got]
-                if l is None or ns != [l["base"] + 1 + j for j in range(len(ns))] or len(ns) != l["ready"]:
+                if l is None or ns != [l["base"] + 1 + j for j in range(len(ns))] or (len(ns) != l["ready"] and not limited) \
+                        or got != l["txs"][:len(got)]:
                     fails.append(("get-not-gapfree-from-base", "get", si, {"acc": a, "nonces": ns, "list": l}))
         if op["op"] == "block":
             bi = bids[si]
